@@ -119,7 +119,7 @@ def run(tier, seed):
         c.notes.append("translator failed: " + V.tail(log, 10))
     c.prove(PROPS)
     exe_h, hlog = V.build_harness("c03")
-    st, st_sync, skipped = {}, {}, {}
+    st, st_sync, st_hist, skipped = {}, {}, {}, {}
     if exe_h is None:
         c.broken_correspondence("harness-build", None, V.tail(hlog, 40))
         return c.finish("harness did not build")
@@ -137,6 +137,13 @@ def run(tier, seed):
     for v in (st_sync.get("impl_violations") or []):
         c.failing_input("builtin.go is not in sync with builtin.jq", v, v)
     c.evaluations += int(st_sync.get("definitions") or 0)
+    # history independence of the natives with per-Code state (the regexp cache)
+    rc, out, hcases, st_hist = V.run_harness("c03", "hist", seed, 0, tier, name="c03hist_%d" % os.getpid())
+    cleanup.append(hcases)
+    if rc != 0:
+        c.broken_correspondence("harness-run hist", None, V.tail(out, 40))
+    harness_violations(c, st_hist)
+    c.evaluations += int(st_hist.get("calls") or 0)
     # natives and operators
     rc, out, cases, st = V.run_harness("c03", "c03", seed, 0, tier, timeout=3000, name="c03_%d" % os.getpid())
     cleanup.append(cases)
@@ -160,7 +167,7 @@ def run(tier, seed):
             "two arguments of arity 2 (operators), structured triples for _slice/_range/fma; every call repeated with each Go "
             "representation of its numbers; compiled path `f($a;$b)` against the direct call; distinct = distinct case lines"
             % (len(dist), st.get("universe"), st.get("core")))
-    return c.finish(rule, extra_cov=dict(harness_stats=st, sync_stats=st_sync, skipped_by_model=skipped,
+    return c.finish(rule, extra_cov=dict(harness_stats=st, sync_stats=st_sync, history_stats=st_hist, skipped_by_model=skipped,
                                          model_mismatches=nreal, spec_mismatches=nspec,
                                          name_arity_pairs=len(dist)))
 
@@ -169,7 +176,7 @@ def replay(path):
     d = json.load(open(path))
     case = d.get("case")
     print(json.dumps({k: d[k] for k in d if k in ("property", "what", "case", "details")}, indent=1))
-    if not case or "(call " not in case:
+    if not case or ("(call " not in case and "(hist " not in case):
         print("no replayable native call in this record; re-running the check")
         return run("quick", d.get("seed", 1))
     c = V.Check(PROP, "replay", d.get("seed", 1))
